@@ -16,6 +16,7 @@ import ChythonModel.Proofs.C06Min
 import ChythonModel.Model.C06Pid
 import ChythonModel.Proofs.C06PidMain
 import ChythonModel.Proofs.C06PidBfsFuel
+import ChythonModel.Proofs.C06PidTotal
 /-!
 # C06 — ring perception returns a minimum cycle basis that ring marks agree with
 
@@ -174,6 +175,17 @@ yields is a closed path of the *input* graph without repeated atom, consecutive 
 theorem candidates_are_simple_cycles (g : Adj) (hwf : wfAdj g = true) (hsym : symAdj g = true)
     (cands : List (Option Ring)) (h : pidCandidates g = some cands) : ∀ r, some r ∈ cands → IsSimpleCycle g r :=
   sssrTrace_cands_cycles hwf hsym (p2LongFor_of_wf hwf hsym) 0 h
+
+/-- **the candidate generator never raises**: on a well-formed symmetric graph whose pruned graph is not empty (i.e. that has a
+ring) `_skin_graph`, `_bfs` and `_make_pid` all return, and no element of the sequence `_c_set` generates is an exception —
+`_canonic_ring` is only applied to closed trails of ≥ 3 atoms and an odd `c_num` always comes with a `pid2` cell -/
+theorem candidate_generator_never_raises (g : Adj) (hwf : wfAdj g = true) (hsym : symAdj g = true)
+    (hskin : ∀ s, skinGraph g = some s → s ≠ []) : ∃ cands, pidCandidates g = some cands ∧ none ∉ cands :=
+  pidCandidates_total hwf hsym hskin
+
+example :
+    let g : Adj := [(1, [2, 3, 4]), (2, [1, 3]), (3, [2, 1, 4]), (4, [3, 1, 5]), (5, [4])]
+    ∀ s, skinGraph g = some s → s ≠ [] := by decide
 
 /-- `_rings_filter` returns exactly `n_sssr` rings, pairwise different, each one produced by the candidate generator
 (it never invents a ring: the merged contours of `_connected_rings` are only used as a filter) -/
